@@ -498,6 +498,11 @@ class Coordinator(object):
                     topic_partitions=topic_partitions,
                 )
 
+        if self._stopping or self._stop_requested:
+            # stop() came while the leader was loading the partition lists: the
+            # leave has been (or is about to be) sent, nothing more may follow it.
+            return
+
         self._state = "[syncing]"
         sync_response = yield self.send_sync_group_request(assignments)
         if not sync_response or self._stopping:
